@@ -2218,6 +2218,7 @@ class Node(_protocols.NodeProtocol, _display.PrettyPrintable):
             ValueError: If `num_outputs`, when not None, is not the same as the length of the outputs.
             ValueError: If an output value is None.
             ValueError: If an output value has a producer set already.
+            ValueError: If the same output value is supplied more than once.
         """
         # Check num_outputs and outputs are consistent
         if num_outputs is not None and outputs is not None and num_outputs != len(outputs):
@@ -2228,9 +2229,16 @@ class Node(_protocols.NodeProtocol, _display.PrettyPrintable):
         # 1. If outputs is specified (can be empty []), use the outputs
         if outputs is not None:
             # Check all output values are valid first
+            seen_outputs: set[int] = set()
             for output in outputs:
                 if output is None:
                     raise ValueError(f"Output value cannot be None. All outputs: {outputs}")
+                if id(output) in seen_outputs:
+                    raise ValueError(
+                        f"Supplied output values must be distinct. "
+                        f"Output: {output}. All outputs: {outputs}"
+                    )
+                seen_outputs.add(id(output))
                 if output.producer() is not None:
                     raise ValueError(
                         f"Supplied output value cannot have a producer when used for initializing a Node. "
